@@ -1,5 +1,5 @@
 SPECIFICATION Spec
-CONSTANTS Conns = {c1, c2}  MaxReq = 2  Closers = {g1, g2, g3}  NoReportAfterTunnel = FALSE  ReportTwiceOnConnect = FALSE  NoOnce = TRUE
+CONSTANTS Conns = {c1, c2}  MaxReq = 2  Closers = {g1, g2, g3}  NoReportAfterTunnel = FALSE  ReportTwiceOnConnect = FALSE  NoOnce = TRUE  MitmReportAtHandoff = FALSE
 INVARIANTS ExactlyOnce InFlightConserved TotalCountsRequests ClosedOnce ActiveConserved
 VIEW VIEW_
 CHECK_DEADLOCK FALSE
